@@ -7,9 +7,10 @@ META = dict(
         quick="whole runs: N=3 scripted attempts (later attempts succeed) over success + {TRANSIENT, UNKNOWN, "
               "PERMANENT} x {exception, result}, max_attempts in [1,4], per-class limit for each of the three "
               "classes absent or in [0,3], UNKNOWN cap absent or in [0,3], through Retry/AsyncRetry call+execute; "
-              "all 8 classes x {exception,result} with one solver-chosen limited class at N=2; sugar entry points "
-              "(Policy, RetryPolicy, async twins) at N=2; two consecutive calls on one object at N=2",
-        thorough="same with N=4 / N=3 / N=3 / N=3",
+              "all 8 classes x {exception,result} with one limited class per job at N=2 (Retry.call); sugar entry points "
+              "(Policy.call, AsyncPolicy.execute, RetryPolicy.execute, AsyncRetryPolicy.call) at N=2; two consecutive calls on "
+              "one object at N=2 (Retry.call, AsyncRetry.execute, Policy.call)",
+        thorough="N=4 / N=3 / N=3 / N=3 and all entry points in every group",
     ),
     assumptions=[
         "clock frozen (deadline never interferes), constant zero strategy, no budget, no abort: C02/C03/C13 cover those",
@@ -113,7 +114,7 @@ def jobs(tier):
                                 max_wall_s=600 if q else 3000, weight=3 if o1 else 1))
     # (b) all 8 classes, one limited class chosen per job
     N = 2 if q else 3
-    for entry in (["retry.call", "aretry.execute"] if q else CORE):
+    for entry in (["retry.call"] if q else CORE):
         for lc in ALL8:
             out.append(dict(name=f"all8:{entry}:limit={lc}", harness="rv.props.c01:h_run",
                             params=dict(entry=entry, N=N, kinds=kinds, classes=ALL8, limits=[lc], cap="sym",
@@ -121,14 +122,14 @@ def jobs(tier):
                             max_wall_s=600 if q else 3000, weight=2))
     # (c) sugar entry points
     N = 2 if q else 3
-    for entry in SUGAR:
+    for entry in (["policy.call", "apolicy.execute", "rp.execute", "arp.call"] if q else SUGAR):
         out.append(dict(name=f"sugar:{entry}", harness="rv.props.c01:h_run",
                         params=dict(entry=entry, N=N, kinds=kinds, classes=three, limits=three, cap="sym",
                                     hooks=False),
                         max_wall_s=600 if q else 3000, weight=2))
     # (d) two calls on one object
     N = 2 if q else 3
-    for entry in CORE + ["policy.call", "arp.execute"]:
+    for entry in (["retry.call", "aretry.execute", "policy.call"] if q else CORE + ["policy.call", "arp.execute"]):
         out.append(dict(name=f"twice:{entry}", harness="rv.props.c01:h_run",
                         params=dict(entry=entry, N=N, kinds=kinds, classes=["TRANSIENT", "UNKNOWN"],
                                     limits=["TRANSIENT", "UNKNOWN"], cap="sym", hooks=False, calls=2),
